@@ -4,5 +4,7 @@ CONSTANTS
   OneFifo = TRUE
   CrossTag = TRUE
   Reuse = FALSE
+  Handover = FALSE
+  Requeue = FALSE
 INVARIANTS NoCrossing
 CHECK_DEADLOCK FALSE
